@@ -129,5 +129,9 @@ class TGen:
             d = None
             if isinstance(a, DurativeAction):
                 d = Fraction(rng.randint(2, 10), 2)
+                lo, hi = a.duration.lower, a.duration.upper
+                if lo.is_constant() and hi.is_constant() and rng.random() < 0.8:
+                    l2, h2 = int(2 * Fraction(lo.constant_value())), int(2 * Fraction(hi.constant_value()))
+                    d = Fraction(rng.randint(l2, max(l2, h2)), 2)     # inside or on the border of the interval
             out.append((s, a, ps, d))
         return out
